@@ -123,31 +123,30 @@ Example C06_example_mixed :
 Proof. vm_compute. auto. Qed.
 
 (* ---- round 5: "identically in the CLI, its twin binary, the analyzer" for the SAME flag texts ----
-   Full statement: forall reg all en dis c, dis <> "<default>" ->
-     cli_selected reg (flags all en dis) c = an_selected (flags all en dis) c.
-   It needs every element of both lists to be free of surrounding blanks: the analyzer trims, the CLIs do not. *)
-Theorem C06_frontends_same_flag_text_partial : forall reg all en dis c,
-  unpaddedb (split_on comma en) = true -> unpaddedb (split_on comma dis) = true ->
+   Both dialects split at commas and trim every element; the analyzer's "<default>" disable value is its own. *)
+Theorem C06_frontends_same_flag_text : forall reg all en dis c,
   String.eqb dis "<default>" = false ->
   cli_selected reg {| cf_all := all; cf_enable := Some en; cf_disable := Some dis |} c
   = an_selected {| af_all := all; af_enable := Some en; af_disable := Some dis |} c.
 Proof. exact frontends_same_keys. Qed.
-Print Assumptions C06_frontends_same_flag_text_partial.
+Print Assumptions C06_frontends_same_flag_text.
 
-Theorem C06_analyzer_is_cli_on_trimmed_lists : forall all en dis c,
+(* The CLIs before the repair (strings.Split only) agreed with the analyzer on lists without surrounding blanks ... *)
+Theorem C06_frontends_same_flag_text_prefix_partial : forall reg all en dis c,
+  unpaddedb (split_on comma en) = true -> unpaddedb (split_on comma dis) = true ->
   String.eqb dis "<default>" = false ->
-  an_selected {| af_all := all; af_enable := Some en; af_disable := Some dis |} c
-  = filter_selected all (map trim_space (split_on comma en)) (map trim_space (split_on comma dis)) c.
-Proof. exact analyzer_is_cli_on_trimmed. Qed.
-Print Assumptions C06_analyzer_is_cli_on_trimmed_lists.
+  cli_selected_prefix reg {| cf_all := all; cf_enable := Some en; cf_disable := Some dis |} c
+  = an_selected {| af_all := all; af_enable := Some en; af_disable := Some dis |} c.
+Proof. exact frontends_same_keys_prefix. Qed.
+Print Assumptions C06_frontends_same_flag_text_prefix_partial.
 
-(* `-enable=' dupArg'`: the CLI selects nothing, the analyzer selects dupArg (recorded finding). *)
-Theorem C06_frontends_padded_refuted :
+(* ... and not otherwise: `-enable=' dupArg'` selected nothing in the CLI and dupArg in the analyzer. *)
+Theorem C06_frontends_padded_prefix_refuted :
   exists reg all en dis c, In c reg /\ valid_checker c = true /\ String.eqb dis "<default>" = false /\
-    cli_selected reg {| cf_all := all; cf_enable := Some en; cf_disable := Some dis |} c
+    cli_selected_prefix reg {| cf_all := all; cf_enable := Some en; cf_disable := Some dis |} c
     <> an_selected {| af_all := all; af_enable := Some en; af_disable := Some dis |} c.
-Proof. exact frontends_padded_refuted. Qed.
-Print Assumptions C06_frontends_padded_refuted.
+Proof. exact frontends_padded_prefix_refuted. Qed.
+Print Assumptions C06_frontends_padded_prefix_refuted.
 
 Example C06_example_unpadded :
   unpaddedb (split_on comma "#diagnostic,#style,dupArg,") = true /\ unpaddedb (split_on comma "#style, #performance") = false.
